@@ -99,6 +99,8 @@ module Pos :
 
   val ldiff : positive -> positive -> n
 
+  val testbit : positive -> n -> bool
+
   val iter_op : ('a1 -> 'a1 -> 'a1) -> positive -> 'a1 -> 'a1
 
   val to_nat : positive -> nat
@@ -119,6 +121,8 @@ module N :
   val coq_land : n -> n -> n
 
   val ldiff : n -> n -> n
+
+  val testbit : n -> n -> bool
 
   val to_nat : n -> nat
  end
@@ -173,7 +177,11 @@ module Z :
 
   val modulo : z -> z -> z
 
+  val odd : z -> bool
+
   val div2 : z -> z
+
+  val testbit : z -> z -> bool
 
   val shiftl : z -> z -> z
 
@@ -977,6 +985,77 @@ val r_run :
 val r_spec : rop list -> (z -> z) -> z -> z list
 
 val rops_ok : z -> z -> rop list -> z -> bool
+
+type xop =
+| XReg of z * z
+| XCell of z
+| XSlot of z
+| XImm of z
+
+type xins =
+| XMov of xop * xop
+| XAdd of xop * xop
+| XSub of xop * xop
+| XInc of xop
+| XDec of xop
+| XImul2 of xop * xop
+| XImul3 of xop * xop * z
+| XLea of z * z * z option * z
+
+val areg : z -> z
+
+val acell : z -> z
+
+val aslot : z -> z
+
+type amap0 = (z * expr) list
+
+val alook : z -> amap0 -> expr -> expr
+
+type sst = { sr : amap0; sc : amap0; ss : amap0 }
+
+val sst0 : sst
+
+val sget_r : sst -> z -> expr
+
+val sget_c : sst -> z -> expr
+
+val sget_s : sst -> z -> expr
+
+val size_ok : z -> bool
+
+val sread : z -> sst -> xop -> expr option
+
+val swrite : z -> sst -> xop -> expr -> z option -> sst option
+
+val sstep : z -> sst -> xins -> sst option
+
+val srun : z -> xins list -> sst -> sst option
+
+val tmp_reg : z -> z option
+
+type xloc =
+| LReg of z
+| LCell of z
+| LSlot of z
+
+val home : loc -> xloc option
+
+val loc_expr : z -> loc -> expr option
+
+val form_spec : z -> binstr -> (xloc * expr) option
+
+val part_eqb : expr -> expr -> bool
+
+val canon : z -> expr -> expr
+
+val same_poly : z -> expr -> expr -> bool
+
+val xloc_eqb : xloc -> xloc -> bool
+
+val may_clobber : z -> z -> bool
+
+val form_ok : z -> binstr -> z -> xins list -> bool
 
 type kind =
 | KPrintIr
